@@ -5,7 +5,7 @@ import random
 
 import vlib
 
-MODEL_VO = ['Cif/Buf.vo']
+MODEL_VO = ['Cif/Buf.vo', 'Cif/Lex.vo']
 
 
 def gen_tables():
@@ -422,3 +422,23 @@ def gen_buf_ops(rng):
             ops.append('P%d' % n)
             puts_in_row = 0
     return ' '.join(ops)
+
+
+# ---------------------------------------------------------------- inputs of the value rule
+
+def gen_lex_inputs(rng, n):
+    out = []
+    tails = [b'', b' ', b'\n', b'\t', b'\r', b'\r\n', b' x', b'\n;', b'#c', b"'", b'"', b';', b'_a 1', b' \n;\n']
+    for _ in range(n):
+        r = rng.random()
+        if r < 0.55:
+            v = gen_value(rng) + rng.choice(tails)
+        elif r < 0.7:
+            v = mutate_text(rng, gen_value(rng) + rng.choice(tails), 2)
+        elif r < 0.8:
+            k = rng.choice(KEYWORDS)
+            v = rng.choice([k, k.upper(), k[:-1], k + b'x', k.capitalize() + b' ', b'x' + k, k[:2].upper() + k[2:]]) + rng.choice(tails)
+        else:
+            v = rand_from(rng, b"ab'\" \n\r;#_$\t?.", rng.choice([0, 1, 2, 3, 5, 9]))
+        out.append('lex\t%d %s' % (rng.randrange(2), hx(v)))
+    return out
